@@ -4,7 +4,7 @@ SEED=${1:-20261002}
 OUT=${MULTI_OUT:-/tmp/thorough_out}
 mkdir -p $OUT
 cd "$(dirname "$0")/.."
-for p in C03 C10 C13 C14 C15 C16 C17 C19 C20; do
+for p in ${PROPS:-C03 C10 C13 C14 C15 C16 C17 C19 C20}; do
   VERIF_SEED=$SEED VERIF_EVIDENCE_DIR=$OUT/ev VERIF_REPLAY_DIR=$OUT/replays /venv/bin/python sim/check.py --property $p --tier thorough > $OUT/$p-thorough.log 2>&1
   echo "seed=$SEED $p exit=$? $(grep -e "$p/thorough:" $OUT/$p-thorough.log | cut -c1-220)"
   grep -e "^VIOLATION" -e "^HARNESS" -e "^  C" $OUT/$p-thorough.log | head -12
